@@ -74,13 +74,20 @@ theorem spec_unmarshalToken (b : Bytes) (c : Ctx) :
   · rename_i t ht; exact Post.pure ⟨h1, ht⟩
   · exact Post.fail
 
-theorem spec_marshalToken (t : Token) (c : Ctx) :
-    Post (marshalToken t) c (fun b c' => c'.accts = c.accts ∧ b = encToken t) := by
+/-- marshalling: the canonical encoding, shorter than 2^63 bytes (a Go slice) -/
+theorem spec_marshalToken_len (t : Token) (c : Ctx) :
+    Post (marshalToken t) c (fun b c' => c'.accts = c.accts ∧ b = encToken t ∧ b.length < two63) := by
   unfold marshalToken
   apply Post.bind
   apply Post.mono (RO.tick .m c)
   intro _ c1 h1
-  exact Post.pure ⟨h1, rfl⟩
+  split
+  · rename_i hl; exact Post.pure ⟨h1, rfl, hl⟩
+  · exact Post.fail
+
+theorem spec_marshalToken (t : Token) (c : Ctx) :
+    Post (marshalToken t) c (fun b c' => c'.accts = c.accts ∧ b = encToken t) :=
+  Post.mono (spec_marshalToken_len t c) (fun _ _ ⟨h1, h2, _⟩ => ⟨h1, h2⟩)
 
 theorem spec_getESDTDataFromKey (a k : Bytes) (c : Ctx) :
     Post (getESDTDataFromKey a k) c (fun t c' => c'.accts = c.accts ∧ tokenOf (c.accts.read a k) = some t) := by
